@@ -253,6 +253,8 @@ theorem desugar_vars (N : Nat) : ∀ n : Node, sizeOf n < N → ∀ cmd, desugar
     · -- if
       rename_i cond t f
       split at hd
+      · cases hd
+      split at hd
       · rename_i a b ha hb
         cases hd
         intro v hv
@@ -269,6 +271,8 @@ theorem desugar_vars (N : Nat) : ∀ n : Node, sizeOf n < N → ∀ cmd, desugar
       · cases hd
     · -- while
       rename_i c b
+      split at hd
+      · cases hd
       cases hdb : desugar b with
       | none => simp [hdb] at hd
       | some cb =>
@@ -279,6 +283,8 @@ theorem desugar_vars (N : Nat) : ∀ n : Node, sizeOf n < N → ∀ cmd, desugar
         exact (ih b (by simp only [Node.while_.sizeOf_spec] at hsz; omega) cb hdb v hv).mono
           (fun w hw => by rw [varsP]; exact List.mem_append_right _ hw)
     · rename_i c b
+      split at hd
+      · cases hd
       cases hdb : desugar b with
       | none => simp [hdb] at hd
       | some cb =>
@@ -414,6 +420,8 @@ end
 theorem lcP_body {init cond next : Option Node} {b : Node} {X : String}
     (h : lcP init cond next b = (true, some X)) : X ∉ varsP b := by
   unfold lcP at h
+  split at h
+  · cases h
   rw [Mwp.loopCompatOf_eq] at h
   split at h
   · rename_i x _
@@ -509,6 +517,9 @@ theorem guardsFresh_of_plain_aux (N : Nat) : ∀ n : Node, sizeOf n < N → ∀ 
     · -- if
       rename_i cond t f
       rw [desugar] at hd
+      by_cases hcv : changesVariable cond = true
+      · rw [if_pos hcv] at hd; cases hd
+      rw [if_neg hcv] at hd
       rw [guardsPlain] at hp
       simp only [Bool.and_eq_true] at hp
       cases ha : desugarO t with
@@ -529,6 +540,9 @@ theorem guardsFresh_of_plain_aux (N : Nat) : ∀ n : Node, sizeOf n < N → ∀ 
     · -- while
       rename_i cond b
       rw [desugar] at hd
+      by_cases hcv : changesVariable cond = true
+      · rw [if_pos hcv] at hd; cases hd
+      rw [if_neg hcv] at hd
       rw [guardsPlain] at hp
       cases hdb : desugar b with
       | none => simp [hdb] at hd
@@ -540,6 +554,9 @@ theorem guardsFresh_of_plain_aux (N : Nat) : ∀ n : Node, sizeOf n < N → ∀ 
     · -- do-while
       rename_i cond b
       rw [desugar] at hd
+      by_cases hcv : changesVariable cond = true
+      · rw [if_pos hcv] at hd; cases hd
+      rw [if_neg hcv] at hd
       rw [guardsPlain] at hp
       cases hdb : desugar b with
       | none => simp [hdb] at hd
